@@ -16,7 +16,7 @@ TEXT = ("Sibling cross-check over every `impl Adapter` of every cargo feature co
         "whole value under length==0 [&& offset==0] and otherwise the slice offset..offset+length. S5: consumers of "
         "listings re-append the same extension constant. Decides the shape of the contract in every backend; does not "
         "decide reopen equality, compression round trips or cross-backend state equality (runtime values)."
-        " S3 (revised): a wrapper hands the delegate's listing on unchanged and maps a key to one backend key; S3d: its read passes through the delegate. S2c: the directory listing reads the store on every call. S6 / S6b: whole-buffer I/O, no truncating adaptor. S7 / S7b: file name / map key is the key itself, no byte-range slicing of the key. S8: SQLite schema creation is IF NOT EXISTS. The Solid backend is excluded by the property and not judged.")
+        " S3 (revised): a wrapper hands the delegate's listing on unchanged and maps a key to one backend key; S3d: its read passes through the delegate. S2c: the directory listing reads the store on every call. S6 / S6b: whole-buffer I/O, no truncating adaptor. S7 / S7b: file name / map key is the key itself, no byte-range slicing of the key. S8: SQLite schema creation is IF NOT EXISTS. The Solid backend is excluded by the property and not judged. S9: the directory backend reads through a file opened by the same call and a ranged read is dominated by a seek (no handle / cursor kept between calls).")
 TECHNIQUE = 'static analysis over rustc MIR: sibling agreement of all Adapter implementations (absence-guarded write effects, suffix filter+strip shape, ranged-read shape, wrapper delegation and codec symmetry)'
 TRUSTED = ["rustc nightly MIR", "std::fs, BTreeMap, rusqlite, reqwest, flate2, brotli behave as documented",
            "SQLite PRIMARY KEY + INSERT OR IGNORE keeps the first row"]
@@ -59,6 +59,40 @@ def run(facts, res):
     for b in leaf:
         n7 += check_addressing(b, facts, res)
     res.floor("S7", "addressing sites of leaf backends (memory map key, directory file name)", n7, 1 + ("filesystemadapter" in feat))
+    # S9: the directory backend reads from a file it opened for this read: the receiver of every read_exact / read_to_end in read_object
+    # derives from a `File::open` of this call, and a ranged read seeks unconditionally. A handle (and cursor position) kept between
+    # calls makes the bytes returned depend on what was read before.
+    res.rule("S9", "directory backend: every read uses a file opened by this call; a ranged read always seeks")
+    n9 = 0
+    for b in leaf:
+        if "Filesystem" not in b.name():
+            continue
+        for body in b.reach("read_object"):
+            bcfg = cfg_of(body)
+            seeks = [bi for bi, t in body.calls() if t.callee is not None and t.callee.name == "seek"]
+            for bi, t in body.calls():
+                if t.callee is None or t.callee.name not in ("read_exact", "read_to_end", "read", "read_to_string", "read_buf") or not t.args or \
+                        "io::Read" not in (t.callee.path + (t.callee.trait or "")):
+                    continue
+                n9 += 1
+                rc = arg_term(body, t, 0, 14)
+                fresh = contains_call(rc, "open")
+                ls_ = lits_of(body, bi, facts)
+                whole_read = any(l.kind == "cmp" and l.term[1] in ("Eq", "Ne") and any(x[0] == "param" and "length" in str(x[2]) for x in walk(l.term)) and
+                                 (l.truth is True) == (l.term[1] == "Eq") for l in ls_) or \
+                    not any(x[0] == "param" and "offset" in str(x[2]) for bj, tj in body.calls() for a_ in range(len(tj.args)) for x in walk(arg_term(body, tj, a_, 6)))
+                sought = whole_read or any(bcfg.dominates(sb, bi) for sb in seeks)
+                res.instance("S9", "%s: %s in %s reads a file opened by this call (%s); positioned by an unconditional seek or a whole read (%s)" % (
+                    b.name(), t.callee.name, body.path, fresh, sought), body.loc(t.line))
+                if not fresh:
+                    res.violation("S9", "%s|read-through-kept-handle" % b.name(),
+                                  "%s reads through a file handle that was not opened by this call: the cursor position (and the file) left by an earlier "
+                                  "read decides which bytes are returned" % body.path, body.loc(t.line))
+                elif not sought:
+                    res.violation("S9", "%s|ranged-read-without-seek" % b.name(),
+                                  "%s performs a ranged read that is not dominated by a seek to the requested offset" % body.path, body.loc(t.line))
+    if "filesystemadapter" in feat:
+        res.floor("S9", "file reads of the directory backend", n9, 2)
     # S8: a persistent backend can be opened on what it stored before: the statements its constructors run against an existing store are
     # idempotent (`CREATE TABLE IF NOT EXISTS`; create_dir_all for the directory backend is classified "container" under S1)
     res.rule("S8", "persistent backends reopen: schema creation in the SQLite constructors is IF NOT EXISTS")
@@ -125,8 +159,16 @@ def check_addressing(b, facts, res):
             if body not in bodies:
                 bodies.append(body)
     for body in bodies:
-        joins = [(bi, t) for bi, t in body.calls() if t.callee is not None and t.callee.name == "join" and "path::Path" in (t.callee.path + (t.callee.self_ty or "")) and len(t.args) >= 2]
+        joins = [(bi, t) for bi, t in body.calls() if t.callee is not None and t.callee.name in ("join", "push") and
+                 "path::Path" in (t.callee.path + (t.callee.self_ty or "")) and len(t.args) >= 2]
         inner = set()
+        # `let mut p = root.join(prefix); p.push(key)`: a join whose result is pushed onto later does not give the last component
+        for bi, t in joins:
+            if t.callee.name == "push":
+                rl_ = {x[1] for x in walk(arg_term(body, t, 0, 4)) if x[0] == "var"}
+                for bj, tj in joins:
+                    if tj.callee.name == "join" and tj.dest is not None and tj.dest.local in rl_ and cfg_of(body).reaches(bj, bi):
+                        inner.add(bj)
         for bi, t in joins:
             for x in walk(arg_term(body, t, 0, 20)):
                 if x[0] == "call" and callee_name(x) == "join":
@@ -206,6 +248,20 @@ def check_write_once(b, facts, res, rid):
                     res.instance(rid, "%s: entry(key).%s in %s is insert-if-absent" % (b.name(), nxt[0].callee.name, body.path), body.loc(t.line))
                     continue
             al = absence_lits(body, bi, facts, names)
+            if not al and body.kind == "closure":
+                # an effect inside a closure (`File::create(p).and_then(|mut f| { f.write_all(data)?; f.flush() })`) is guarded by what
+                # dominates the call the closure is handed to
+                from ..callgraph import cg_of as _cg1
+                cb_, hops_ = body, 0
+                while not al and cb_ is not None and cb_.kind == "closure" and hops_ < 4:
+                    hops_ += 1
+                    nxt_ = None
+                    for cs_ in _cg1(facts).callers_of(cb_.path):
+                        if cb_ in cs_.closures:
+                            al = absence_lits(cs_.body, cs_.block, facts, names)
+                            nxt_ = cs_.body
+                            break
+                    cb_ = nxt_
             # the guard must talk about the same store / path as the effect
             res.instance(rid, "%s: %s (%s) in %s dominated by %s" % (b.name(), t.callee.name, eff, body.path, al[:2] or "NOTHING"), body.loc(t.line))
             if not al:
